@@ -219,6 +219,29 @@ SPECS += [
          assume_false=["time is not None and (not isinstance(time, datetime))"], props=["C20"]),
 ]
 
+NAMED_OPT = "Dict[Obj,Opt[Unit]]"
+NAMED_BOOL = "Dict[Obj,Bool]"
+
+SPECS += [
+    # ---- tools/connect_helper.py : the status a connect call reports (C06);  schedule.py : what the connect loop makes
+    #      of it (C04 C06) -------------------------------------------------------------------------------------------
+    dict(lean="connect_status", path="tools/connect_helper.py", qual="ConnectHelper.connect", group="Connect",
+         slice={"start": "if all(", "end": "return ComponentStatus.CONNECTING_IDLE"},
+         fields={"in_infos": NAMED_OPT, "out_infos": NAMED_OPT, "in_data": NAMED_OPT, "infos_pushed": NAMED_BOOL,
+                 "data_pushed": NAMED_BOOL},
+         params={"any_done": "Bool"}, ret="Int", drop_calls=["_check_times"],
+         consts={"ComponentStatus.CONNECTED": ("(0 : Int)", "Int"), "ComponentStatus.CONNECTING": ("(1 : Int)", "Int"),
+                 "ComponentStatus.CONNECTING_IDLE": ("(2 : Int)", "Int")},
+         props=["C06"]),
+    dict(lean="connect_flags", path="schedule.py", qual="Composition._connect_components", group="Connect",
+         slice={"start": "if comp.status == ComponentStatus.CONNECTED", "end": "if comp.status == ComponentStatus.CONNECTED",
+                "result": ["any_new_connection", "any_unconnected"]},
+         params={"status": "Int", "any_new_connection": "Bool", "any_unconnected": "Bool"}, ret="Tuple[Bool,Bool]",
+         consts={"comp.status": ("status", "Int"), "ComponentStatus.CONNECTED": ("(0 : Int)", "Int"),
+                 "ComponentStatus.CONNECTING": ("(1 : Int)", "Int")},
+         props=["C06", "C04"]),
+]
+
 
 def by_group():
     g = {}
